@@ -147,70 +147,14 @@ CONFIGS = list(itertools.product(["Uiso", "Uani", "Biso", "Bani", "absent", "mix
 
 # ----------------------------------------------------------------------------- PDB symbols
 
-MONO = ["2/m", "21/m", "2/c", "21/c", "21", "2", "m", "c"]
-TOK = {
-    "orthorhombic": [["21", "2", "m", "a", "b", "c", "n", "d"]] * 3,
-    "tetragonal": [["41/a", "42/m", "42/n", "4/m", "4/n", "41", "42", "43", "-4", "4"], ["21", "2", "m", "c", "n", "b", "d", "a"], ["21", "2", "m", "c", "n", "b", "d", "a"]],
-    "hexagonal": [["63/m", "6/m", "61", "62", "63", "64", "65", "-6", "6"], ["2", "m", "c"], ["2", "m", "c"]],
-    "cubic": [["21", "2", "41", "42", "43", "-4", "4", "m", "n", "a", "d"], ["-3", "3"], ["2", "m", "n", "c", "d"]],
-}
-
-
-def parse(rest, slots, minn, exact=None):
-    """all ways to split `rest` into tokens taken from slots[i] (i-th token from the i-th list)"""
-    out = []
-
-    def rec(s, i, acc):
-        if not s:
-            if len(acc) >= minn and (exact is None or len(acc) in exact):
-                out.append(list(acc))
-            return
-        if i >= len(slots):
-            return
-        for t in slots[i]:
-            if s.startswith(t):
-                rec(s[len(t):], i + 1, acc + [t])
-
-    rec(rest, 0, [])
-    return out
-
-
-def pdb_symbol(key, crystal_system):
-    """PDB spelling of a dictionary key, or None if the key is a setting-suffixed alias (r3h, r3r)."""
-    lat, rest = key[0].upper(), key[1:]
-    if crystal_system == "triclinic":
-        return "%s %s" % (lat, rest)
-    if crystal_system == "monoclinic":
-        assert rest in MONO, key
-        return "%s 1 %s 1" % (lat, rest)
-    if crystal_system == "trigonal":
-        if lat == "R":
-            if rest[-1] in "hr" and rest not in ("3", "-3"):
-                if rest[:-1] in ("3", "-3", "32", "3m", "3c", "-3m", "-3c"):
-                    return None
-            if rest in ("3h", "3r", "-3h", "-3r"):
-                return None
-            p = parse(rest, [["-3", "3"], ["2", "m", "c"]], 1)
-        else:
-            p = [x for x in parse(rest, [["31", "32", "-3", "3"], ["1", "2", "m", "c"], ["1", "2", "m", "c"]], 1, exact=(1, 3)) if len(x) == 1 or x[1:].count("1") == 1]
-        assert len(p) == 1, (key, p)
-        return lat + " " + " ".join(p[0])
-    slots = TOK[crystal_system]
-    p = parse(rest, slots, 1, exact={"orthorhombic": (3,), "tetragonal": (1, 3), "hexagonal": (1, 3), "cubic": (2, 3)}[crystal_system])
-    assert len(p) == 1, (key, p)
-    return lat + " " + " ".join(p[0])
-
-
 def pdb_symbols():
-    bind_repo()
-    from xfab import sg
-
+    """(compact name, PDB spelling, crystal system) of the 230 groups from the harness's own Hermann-Mauguin table (oracles.HM):
+    full monoclinic symbols with '1' place-holders ('P 1 21/c 1'), trigonal symbols whose '1' belongs to the symbol ('P 3 1 2')."""
+    rng = [(2, "triclinic"), (15, "monoclinic"), (74, "orthorhombic"), (142, "tetragonal"), (167, "trigonal"), (194, "hexagonal"), (230, "cubic")]
     out = []
-    for key, kl in sg.sgdic.items():
-        g = sg.sg(sgname=key)
-        s = pdb_symbol(key, g.crystal_system)
-        if s is not None:
-            out.append((key, s, g.crystal_system))
+    for no in range(1, 231):
+        csys = next(nm for hi, nm in rng if no <= hi)
+        out.append((O.hm_compact(no), O.hm_pdb(no), csys))
     return out
 
 
@@ -346,6 +290,62 @@ def check_case(case):
                 compare_atomlist(r, key, b.atomlist, exp, structure, "P21/c")
                 r.nontrivial.add(key)
                 r.states += 1
+                if (case["lo"] + ci) % 4 == 0 and NUMFMT == "fixed":
+                    # the other documented ways of handing the same block to CIFread: by keyword with the block name, CIFopen + CIFread(),
+                    # a block opened by this / by another builder passed as cifblk (keyword and positional), and a builder that has read
+                    # ANOTHER file before (an occupancy-0.5 / multiplicity file) and is now given this block
+                    other_txt, _ = gen_cif(("Uiso", True, True, "_atom_site_symmetry_multiplicity", "disp", False), cell=CELLS[1], natoms=2)
+                    fo = os.path.join(tmp, "other.cif")
+                    with open(fo, "w") as f:
+                        f.write(other_txt)
+
+                    def f_kw():
+                        b_ = structure.build_atomlist()
+                        b_.CIFread(ciffile=fn, cifblkname="blk")
+                        return b_
+
+                    def f_open_read():
+                        b_ = structure.build_atomlist()
+                        b_.CIFopen(fn)
+                        b_.CIFread()
+                        return b_
+
+                    def f_own_blk():
+                        b_ = structure.build_atomlist()
+                        blk = b_.CIFopen(fn, "blk")
+                        b_.CIFread(cifblk=blk)
+                        return b_
+
+                    def f_foreign_blk():
+                        blk = structure.build_atomlist().CIFopen(ciffile=fn)
+                        b_ = structure.build_atomlist()
+                        b_.CIFread(cifblk=blk)
+                        return b_
+
+                    def f_foreign_blk_pos():
+                        blk = structure.build_atomlist().CIFopen(fn)
+                        b_ = structure.build_atomlist()
+                        b_.CIFread(None, None, blk)
+                        return b_
+
+                    def f_after_other():
+                        blk = structure.build_atomlist().CIFopen(fn)
+                        b_ = structure.build_atomlist()
+                        b_.CIFopen(fo)
+                        b_.CIFread(cifblk=blk)
+                        return b_
+
+                    for fname, ff in (("CIFread(ciffile=, cifblkname=)", f_kw), ("CIFopen();CIFread()", f_open_read), ("CIFread(cifblk=own block)", f_own_blk),
+                                      ("CIFread(cifblk=block of another builder)", f_foreign_blk), ("CIFread(None, None, block)", f_foreign_blk_pos),
+                                      ("CIFopen(other file);CIFread(cifblk=this block)", f_after_other)):
+                        try:
+                            b2 = ff()
+                        except Exception as ex:
+                            r.evals += 1
+                            r.violation(key + ":" + fname + ":exception", "CIFread raised on a well-formed file", None, repr(ex))
+                            continue
+                        compare_atomlist(r, key + ":" + fname, b2.atomlist, exp, structure, "P21/c")
+                        r.transitions += 1
         elif case["kind"] == "cif-symbols":
             cfg = ("Uiso", False, True, None, "disp", False)
             for key0, sym, csys in pdb_symbols()[case["lo"]:case["hi"]]:
